@@ -10,6 +10,7 @@ from __future__ import annotations
 
 import math
 
+from vt.mon import c37_filters as FF
 from vt.mon import c37_kinds as KN
 
 SEP = "\x1f"
@@ -66,7 +67,7 @@ ALL_LABELS = (
     "autoescape-dynamic", "local-macro", "local-call-block", "include", "set-block",
     "cycler-joiner", "with", "recursive-loop", "async-filters", "loop-filter", "assign",
     "import-with-context", "import-macro-autoescape", "import-macro-evalctx-probe",
-    "awaitable-kinds", "base", "base2", "super")
+    "awaitable-kinds", "filter-forms", "base", "base2", "super")
 
 # labels of fragments that run code of the cached library lib.j2 (whose Context and
 # eval context are shared by every task that imports it)
@@ -93,9 +94,14 @@ INC = [
 class FG:
     """Fragment generator; every fragment contains at least one ``g()`` call."""
 
-    def __init__(self, rng):
+    def __init__(self, rng, filters=None, with_filter_forms=False):
         self.r = rng
         self.n = 0
+        # filter-forms fragments are part of the alphabet of the pair cases only: the
+        # generated-template cases keep their composition (and random stream)
+        self.with_filter_forms = with_filter_forms
+        # names of the environment's filters the filter-forms fragments may use
+        self.fnames = [f for f in FF.ALL if filters is None or f in filters]
 
     def t(self):
         self.n += 1
@@ -110,7 +116,48 @@ class FG:
                   self.callblock_local, self.autoescape_dyn, self.namespace_bare,
                   self.imp_autoescape, self.imp_autoescape, self.imp_evalctx_probe,
                   self.imp_evalctx_probe, self.kinds, self.kinds, self.kinds, self.kinds]
+        if self.with_filter_forms and r.random() < 0.4:
+            return self.filter_forms()
         return r.choice(makers)()
+
+    def ft(self):
+        """Tag of a g() call the gate chooser prefers (the await points around which the
+        forced filter-form pairs are built)."""
+        self.n += 1
+        return "'ff%d'" % self.n
+
+    def filter_forms(self, role=None, names=None):
+        """Uses of built-in filters in plain and rare argument forms around g() calls.
+        role None: 2-4 uses of random filters in random forms.  role 'plain-sandwich':
+        the plain form of every filter in names, a g() call, the plain forms again
+        (optionally a second round).  role 'rare-between': a g() call, one rare form of
+        every filter in names, a g() call (optionally the plain forms afterwards)."""
+        r = self.r
+        if role is None:
+            uses = []
+            for _ in range(r.randint(2, 4)):
+                f = r.choice(self.fnames)
+                rare = sorted(FF.TABLE[f][1])
+                form = r.choice(rare) if rare and r.random() < 0.5 else FF.PLAIN
+                uses.append(FF.use(f, form, r))
+            uses.insert(r.randint(0, len(uses)), "{{ g(" + self.t() + ") }}")
+            if r.random() < 0.5:
+                uses.insert(r.randint(0, len(uses)), "{{ g(" + self.t() + ") }}")
+            return ("filter-forms", "".join(uses))
+        plain = "".join(FF.use(f, FF.PLAIN) for f in names)
+        if role == "plain-sandwich":
+            src = plain + "{{ g(" + self.ft() + ") }}" + plain
+            if r.random() < 0.25:
+                src += "{{ g(" + self.ft() + ") }}" + plain
+            return ("filter-forms", src)
+        rare = "".join(FF.use(f, r.choice(sorted(FF.TABLE[f][1]))) for f in names)
+        src = "{{ g(" + self.ft() + ") }}" + rare + "{{ g(" + self.ft() + ") }}"
+        c = r.random()
+        if c < 0.25:
+            src += plain
+        elif c < 0.5:
+            src = plain + src
+        return ("filter-forms", src)
 
     # engine-made lazy results that pass through the await-if-awaitable wrapper as
     # filter results: (name, type family noted for the harness, source)
@@ -348,8 +395,9 @@ def render_frags(frags):
     return SEP.join(lab + LAB + src for lab, src in frags)
 
 
-def gen_case(rng, force_evalctx=False, force_kinds=False, all_families=False):
-    """force_kinds: both main templates get a fragment with values of several kinds,
+def gen_case(rng, force_evalctx=False, force_kinds=False, all_families=False, rng2=None):
+    """rng2: stream for the environment policy values of the case (None: defaults).
+    force_kinds: both main templates get a fragment with values of several kinds,
     one starting with a plain / engine-made lazy value, the other with an awaitable
     one behind its first await point; tasks 0 / 1 render main 0 / 1.
     force_evalctx: main 0 gets a fragment whose imported macro awaits inside an
@@ -412,17 +460,64 @@ def gen_case(rng, force_evalctx=False, force_kinds=False, all_families=False):
     # make sure there is contrast where it matters
     if ntasks >= 2 and tasks[0]["ae"] == tasks[1]["ae"]:
         tasks[1]["ae"] = not tasks[0]["ae"]
-    return {"tpls": tpls, "tasks": tasks, "autoescape": rng.random() < 0.3}
+    return {"tpls": tpls, "tasks": tasks, "autoescape": rng.random() < 0.3,
+            "policies": gen_policies(rng2) if rng2 is not None else None}
 
 
-def choose_gates(picks, ncalls, maxg):
-    """Deterministically choose up to maxg distinct call indices (1-based)."""
+def gen_policies(rng):
+    """Environment-specific policy values (fresh objects per environment; 3 of 4 cases)
+    or None = the default policy objects."""
+    return rng.choice(FF.POLICY_VARIANTS + FF.POLICY_VARIANTS[1:] + [None])
+
+
+def gen_pair_case(rng, offset, filters=None):
+    """A small case built around one pair of filter-form fragments: main 0 = a g() call,
+    one rare argument form of each of 8 built-in filters, a g() call; main 1 = the plain
+    forms of the same filters, a g() call, the plain forms again; each next to 0-2 other
+    fragments (40% of them 2-4 uses of random filters in random forms around g() calls,
+    the others drawn from the general alphabet); tasks 0 / 1 render main 0 / 1, an
+    optional third task either.
+    offset selects the filters (consecutive slices of those that have rare forms).  The
+    g() calls of the pair are always gates; <= 3 gates per task besides the start."""
+    fg = FG(rng, filters, with_filter_forms=True)
+    names = FF.pair_slice(offset, filters)
+    tpls = {"lib.j2": LIB, "libctx.j2": LIBCTX}
+    for i, s in enumerate(INC):
+        tpls["inc%d.j2" % i] = s
+    mains = []
+    for mi in range(2):
+        frags = [fg.filter_forms("rare-between" if mi == 0 else "plain-sandwich", names)]
+        for _ in range(rng.choice([0, 1, 1, 2])):
+            frags.insert(rng.randint(0, len(frags)), fg.frag())
+        name = "m%d.j2" % mi
+        tpls[name] = "{% import 'lib.j2' as lib %}" + render_frags(frags)
+        mains.append(name)
+    names3 = ["<A&1>", "B\"2'", "C>3<"]
+    tasks = []
+    for t in range(rng.choice([2, 2, 2, 3])):
+        n = rng.randint(2, 3)
+        xs = [rng.randint(1, 9) for _ in range(n)]
+        tasks.append({
+            "main": mains[t] if t < 2 else rng.choice(mains), "name": names3[t], "xs": xs,
+            "ys": [t + 1, t + 4], "skip": rng.choice(xs), "ae": t % 2 == 0,
+            "tree": [{"v": t + 1, "kids": [{"v": t + 5, "kids": []}]}, {"v": t + 3, "kids": []}],
+            "gate_picks": [rng.random() for _ in range(4)],
+        })
+    return {"tpls": tpls, "tasks": tasks, "autoescape": rng.random() < 0.3,
+            "policies": gen_policies(rng), "ff_pair": names, "maxg": 3}
+
+
+def choose_gates(picks, ncalls, maxg, prefer=()):
+    """Deterministically choose up to maxg distinct call indices (1-based); the first
+    two of `prefer` (call indices) are always among them."""
     if ncalls <= 0:
         return []
     k = min(maxg, ncalls, len(picks))
-    chosen = []
-    avail = list(range(1, ncalls + 1))
-    for p in picks[:k]:
+    chosen = [i for i in prefer if 1 <= i <= ncalls][:2]
+    avail = [i for i in range(1, ncalls + 1) if i not in chosen]
+    for p in picks[:k - len(chosen)]:
+        if not avail:
+            break
         chosen.append(avail.pop(int(p * len(avail)) % len(avail)))
     return sorted(chosen)
 
